@@ -936,6 +936,41 @@ class Program:
         self.consts = facts["consts"]
         self.fns = {p: Fn(self, p, d) for p, d in facts["fns"].items()}
         self._cg = None
+        self.inlined_helpers = []
+        self._inline_new_helpers()
+
+    def _inline_new_helpers(self):
+        """Private functions that do not exist in the frozen baseline decomposition (rules/baseline_fns.json)
+        are treated as freshly extracted helpers and spliced into their callers; a function that merely
+        replaced a vanished baseline function with the same signature and parent is a rename and is kept."""
+        import json as _json, os as _os
+        bp = _os.path.join(_os.path.dirname(_os.path.dirname(_os.path.abspath(__file__))), "rules", "baseline_fns.json")
+        if not _os.path.exists(bp) or self.meta.get("crate") != "log4rs":
+            return
+        base = _json.load(open(bp))
+        cur = {p: f for p, f in self.fns.items() if f.kind in ("Fn", "AssocFn")}
+        new = [p for p, f in cur.items() if p not in base and not f.d.get("impl_trait") and not (f.vis or "").startswith("Public")]
+        if not new:
+            return
+        gone = [p for p in base if p not in cur]
+
+        def parent(p):
+            return p.rsplit("::", 1)[0]
+        gone_sigs = {(parent(p), _norm_sig(base[p])) for p in gone}
+        helpers = set()
+        for p in new:
+            if (parent(p), _norm_sig(cur[p].d.get("sig", ""))) in gone_sigs:
+                continue   # rename of an existing helper
+            helpers.add(p)
+        if not helpers:
+            return
+        self.inlined_helpers = sorted(helpers)
+        for p in list(self.fns):
+            f = self.fns[p]
+            if p in helpers:
+                continue
+            if any(c.t.get("resolved") in helpers for c in f.calls(reachable_only=False)):
+                self.fns[p] = inline_private_helpers(self, f, only=helpers, depth=3)
 
     def fn(self, path):
         f = self.fns.get(path)
@@ -1272,7 +1307,11 @@ def _renum_block(b, lo, bo, ret_to, dest):
     return nb
 
 
-def inline_private_helpers(prog, fn, wanted=None, depth=2, max_blocks=120):
+def _norm_sig(sig):
+    return re.sub(r"'[a-z_0-9]+", "'_", sig or "")
+
+
+def inline_private_helpers(prog, fn, wanted=None, depth=2, max_blocks=120, only=None):
     """Synthetic Fn with calls to private, non-recursive, crate-local helper functions spliced in.
     `wanted`: only helpers whose (static) cone contains a call matching one of these callee patterns
     are inlined; None = every eligible helper."""
@@ -1284,6 +1323,8 @@ def inline_private_helpers(prog, fn, wanted=None, depth=2, max_blocks=120):
     def eligible(path, stack):
         cf = prog.fns.get(path)
         if cf is None or path in stack or path == fn.path:
+            return None
+        if only is not None and path not in only:
             return None
         if cf.kind not in ("Fn", "AssocFn") or cf.d.get("impl_trait"):
             return None
